@@ -149,7 +149,8 @@ func VerifH_C10_Close() {
 	})
 }
 
-// P3/P5: the retrying / reconnecting client: Publish ‖ Stats ‖ Client ‖ Ping while (re)connecting.
+// P3/P5: the retrying / reconnecting client: Publish/Subscribe ‖ one more application goroutine that acts at any
+// scheduling point (Stats/Client/Err, a direct QoS 0 publish, Handle, or Ping) ‖ reconnects caused by faults.
 func VerifH_C10_Retry() {
 	b := &vbroker{budget: verifParam("faults", 1)}
 	b.maxDials = 6
@@ -158,7 +159,10 @@ func VerifH_C10_Retry() {
 	if !verifSymbolic() {
 		unit = time.Millisecond
 	}
-	cli, err := NewReconnectClient(b, WithReconnectWait(unit, 4*unit), WithTimeout(100*unit))
+	variant := verifChoice("variant", 4) // 0 Stats/Client/Err, 1 direct QoS 0 publish, 2 Handle, 3 Ping
+	rc := &RetryClient{}
+	rc.DirectlyPublishQoS0 = variant == 1
+	cli, err := NewReconnectClient(b, WithReconnectWait(unit, 4*unit), WithTimeout(100*unit), WithRetryClient(rc))
 	verifAssert(err == nil, "C10.new_client")
 	ctx := context.Background()
 	go func() {
@@ -166,34 +170,41 @@ func VerifH_C10_Retry() {
 		cli.Subscribe(ctx, Subscription{Topic: "sa", QoS: QoS1})
 	}()
 	go func() {
-		_ = cli.Stats()
-		if c := cli.Client(); c != nil {
-			_ = c.Err()
-		}
-		if !verifSymbolic() {
-			// native replay: poll while the scenario runs so that the race detector sees both accesses
-			for t0 := time.Now(); time.Since(t0) < 60*time.Millisecond; {
-				_ = cli.Stats()
-				verifYield()
+		if variant == 0 {
+			_ = cli.Stats()
+			if c := cli.Client(); c != nil {
+				_ = c.Err()
+			}
+			if !verifSymbolic() {
+				// native replay: poll while the scenario runs so that the race detector sees both accesses
+				for t0 := time.Now(); time.Since(t0) < 60*time.Millisecond; {
+					_ = cli.Stats()
+					verifYield()
+				}
 			}
 		}
 		verifPauseAny() // resumed at any scheduling point of the other threads (one delay) or when idle
-		_ = cli.Stats()
-		if c := cli.Client(); c != nil {
-			_ = c.Err()
-			_ = c.Stats()
-		}
-	}()
-	if verifChoice("ping", 2) == 1 {
-		go func() {
-			verifPause()
+		switch variant {
+		case 0:
+			_ = cli.Stats()
+			if c := cli.Client(); c != nil {
+				_ = c.Err()
+				_ = c.Stats()
+			}
+		case 1:
+			if cli.Client() != nil {
+				cli.Publish(ctx, &Message{Topic: "q0", QoS: QoS0, Payload: []byte{9}})
+			}
+		case 2:
+			cli.Handle(HandlerFunc(func(m *Message) {}))
+		case 3:
 			if cli.Client() != nil {
 				pctx, cancel := context.WithCancel(ctx)
 				go func() { verifPause(); cancel() }()
 				cli.Ping(pctx)
 			}
-		}()
-	}
+		}
+	}()
 	_, _ = cli.Connect(ctx, "cid", WithCleanSession(false))
 	cli.Publish(ctx, &Message{Topic: "b", QoS: QoS2, Payload: []byte{2}})
 	verifOnQuiescence(func() {
